@@ -74,6 +74,9 @@ pub struct Policy {
     pub slow_send_replicas: Vec<(C3, u64)>,
     /// Fixed delay (us) after every receive by replicas of these blocks (slow receiver).
     pub slow_recv_blocks: Vec<(u64, u64)>,
+    /// Delay (us) after receiving a batch sent by a replica of `block` on a receiver of `host`
+    /// (one slow link, e.g. the state feedback towards one host): (block, host, us).
+    pub slow_recv_links: Vec<(u64, u64, u64)>,
     /// Delay (us) in mux/demux threads for each message (slow network).
     pub slow_net_us: u64,
     /// Yield at every event with this probability (per 1000).
@@ -93,6 +96,7 @@ impl Policy {
             && self.slow_send_blocks.is_empty()
             && self.slow_send_replicas.is_empty()
             && self.slow_recv_blocks.is_empty()
+            && self.slow_recv_links.is_empty()
             && self.slow_net_us == 0
             && self.yield_permille == 0
     }
@@ -348,6 +352,11 @@ impl Observer for Obs {
                 self.jitter(&slot, &pol, &ctr);
                 for (b, us) in &pol.slow_recv_blocks {
                     if *b == at.coord.block_id {
+                        self.delay(&slot, &pol, *us, &ctr);
+                    }
+                }
+                for (b, h, us) in &pol.slow_recv_links {
+                    if *b == batch.sender().block_id && *h == at.coord.host_id {
                         self.delay(&slot, &pol, *us, &ctr);
                     }
                 }
